@@ -45,7 +45,7 @@ PROPS["C18"] = {"lean_modules": ["Vet.Props.C18"], "corr": [], "trusted": ["floc
                 "shards": {"quick": 4, "thorough": 8},
                 "explanation": "Theorems about the N-process lock protocol model for all interleavings; tie: syscall-trace conformance of the real Store::acquire_offline/commit with the model's process program, and sampled real schedules (2..6 threads, random think times) checked for lost updates and load errors."}
 
-PROPS["C08"] = {"lean_modules": ["Vet.Props.C08", "Vet.Props.C08Policies"], "corr": ["corr.registry", "corr.crate-policies", "corr.audit-as"], "trusted": ["crates.io index / API JSON shapes (mocked)", "semver ordering of published versions"], "assumptions": ["the mock network stands in for crates.io"],
+PROPS["C08"] = {"lean_modules": ["Vet.Props.C08", "Vet.Props.C08Policies", "Vet.Props.C08Meta"], "corr": ["corr.registry", "corr.crate-policies", "corr.audit-as", "corr.same-metadata"], "trusted": ["crates.io index / API JSON shapes (mocked)", "semver ordering of published versions"], "assumptions": ["the mock network stands in for crates.io"],
                 "shards": {"quick": 4, "thorough": 8},
                 "explanation": "Theorems about the model of the unpublished-version choice, the audit-as-crates-io consistency check and the classification; tie: real cmd_check on disk against a mock registry over registry states, outcome class vs the model, oracles on the recorded choice and on the --locked run after publication."}
 PROPS["C17"] = {"lean_modules": ["Vet.Props.C17", "Vet.Props.C17Heal"], "corr": ["corr.suggest", "corr.wire"], "trusted": CORE_TRUST + ["diffstat (mocked |to^2 - from^2| offline)", "which versions have sources (offline rule)"], "assumptions": CORE_ASSUME,
